@@ -140,7 +140,7 @@ pub fn generate(r: &mut Rng, tier: Tier) -> Scenario {
         if r.chance(1, 3) {
             plan.push(format!("read:*:eintr:{}", 2 + r.usize(3)));
         }
-        Some(T2Spec { modes: vec![], plan, profile: "dev".into(), force_color: false })
+        Some(T2Spec { modes: vec![], plan, profile: "dev".into(), force_color: false, raw_base_name: None })
     } else {
         None
     };
@@ -695,9 +695,9 @@ fn check_t2(scn: &Scenario, stats: &mut Stats) -> Vec<Violation> {
     }
     let run = |flags: &[&str], plan: &[String], sbx: &t2::Sandbox, base: &str, e: u64| {
         let f: Vec<String> = flags.iter().map(|s| (*s).to_string()).collect();
-        t2::run_rva(&t2::RvaCall { sandbox: sbx, base, flags: &f, entropy: e, plan, profile: &spec.profile, force_color: false, cpu_seconds: 10 })
+        t2::run_rva(&t2::RvaCall { sandbox: sbx, base, flags: &f, entropy: e, plan, profile: &spec.profile, force_color: false, cpu_seconds: 10, raw_base: None })
     };
-    let Ok(sj) = run(&["--json"], &spec.plan, &sb, &scn.world.base, e0) else {
+    let Ok(sj) = run(&["--json", "--all-files"], &spec.plan, &sb, &scn.world.base, e0) else {
         stats.inc("harness:spawn_failed");
         return out;
     };
@@ -762,7 +762,7 @@ fn check_t2(scn: &Scenario, stats: &mut Stats) -> Vec<Violation> {
     // reference: pasted file through the same CLI, fault-free
     let pworld = World::single(&world::pasted_text(&pasted));
     let Ok(psb) = t2::Sandbox::new(&pworld) else { return out };
-    let Ok(pj) = run(&["--json"], &[], &psb, "base.s", scn.entropy.get(1).copied().unwrap_or(e0)) else { return out };
+    let Ok(pj) = run(&["--json", "--all-files"], &[], &psb, "base.s", scn.entropy.get(1).copied().unwrap_or(e0)) else { return out };
     stats.inc("t2_runs");
     if pj.abnormal().is_some() {
         stats.inc("skipped_reference_crash(C06's subject)");
